@@ -1,17 +1,21 @@
 #!/bin/bash
-# usage: confirm_mutant.sh <cXX> <demo crate> [extra cargo args for the demo, quoted] [RUSTFLAGS for the demo]
-# Confirms in the scratch worktree /tmp/wt_<cXX>: demo fails with the change, passes without, whole suite passes with the change.
+# usage: confirm_mutant.sh <cXX> <demo crate dir> [extra cargo args for the demo, quoted] [RUSTFLAGS for the demo]
+# Confirms in a FRESH scratch worktree of /repo's HEAD: demo passes without the change, fails with it, whole existing suite passes with it.
 id=$1; crate=$2; extra=$3; rf=$4
-wt=/tmp/wt_$id; out=/tmp/mut_$id/confirm.log
-cd $wt || exit 2
+cw=/tmp/cw_$id; out=/tmp/mut_$id/confirm.log
+git -C /repo worktree remove --force $cw 2>/dev/null
+git -C /repo worktree add -q $cw HEAD || exit 2
+cd $cw
 export CARGO_NET_OFFLINE=true
-demo=$(git status --porcelain | grep '^??' | grep mut_demo | awk '{print $2}' | head -1)
-echo "demo file: $demo" > $out
-run_demo() { RUSTFLAGS="$rf" timeout 1800 cargo test -p $crate $extra --test mut_demo --offline 2>&1 | tail -15; }
-echo "== demo WITH change" >> $out; run_demo >> $out; 
-git stash -q; echo "== demo WITHOUT change" >> $out; run_demo >> $out; git stash pop -q
-mv $demo /tmp/mut_$id/demo_aside.rs
+export CARGO_TARGET_DIR=/tmp/wt_$id/target
+echo "base: $(git rev-parse --short HEAD)" > $out
+mkdir -p $crate/tests; cp /tmp/mut_$id/demo.rs $crate/tests/mut_demo.rs
+run_demo() { RUSTFLAGS="$rf" timeout 2400 cargo test -p $crate $extra --test mut_demo --offline 2>&1 | grep -E "^test |test result|panicked|error" | head -30; }
+echo "== demo WITHOUT change" >> $out; run_demo >> $out
+git apply /tmp/mut_$id/patch.diff || { echo "PATCH DOES NOT APPLY" >> $out; exit 3; }
+echo "== demo WITH change" >> $out; run_demo >> $out
+rm $crate/tests/mut_demo.rs
 echo "== suite WITH change" >> $out
 timeout 3000 cargo test --workspace --no-fail-fast --offline 2>&1 | grep -E "^test result|FAILED|failed" >> $out
-mv /tmp/mut_$id/demo_aside.rs $demo
 echo DONE >> $out
+cd /; git -C /repo worktree remove --force $cw
